@@ -806,6 +806,7 @@ def r4_10(run):
     the solver: a test `mode in [...]` over mode names, anywhere in the result extraction and the component models, lists exactly
     the modes in which pipeflow() runs a hydraulic calculation or exactly those in which it runs a thermal one (a thermal mode
     missing from one list makes that site mask thermal results by the hydraulic supply)"""
+    from ..flatten import const_substituted
     ix = run.index
     hyd, heat = mode_classes(ix)
     allm = hyd | heat
@@ -815,7 +816,7 @@ def r4_10(run):
     for f in ix.all_functions():
         if not (f.module.startswith("pandapipes.component_models") or f.module == RE_) or ".test." in f.module:
             continue
-        for node in ast.walk(f.raw_node):
+        for node in ast.walk(const_substituted(ix, f)):      # the tree as written, named constants replaced by their displays
             if isinstance(node, ast.Compare) and len(node.ops) == 1 and isinstance(node.ops[0], (ast.In, ast.NotIn)) \
                     and isinstance(node.comparators[0], (ast.List, ast.Tuple, ast.Set)):
                 items = [const_str(e) for e in node.comparators[0].elts]
@@ -826,7 +827,7 @@ def r4_10(run):
                            "the mode test lists exactly the hydraulic modes %s or exactly the thermal modes %s" % (sorted(hyd), sorted(heat)),
                            run.where(f, node))
     run.stat("mode_tests_checked", n)
-    run.floor(5)
+    run.floor(2)        # the mode-classes obligation and at least one site (sites may be merged into one helper)
 
 
 RULES = [("R4.1", r4_1), ("R4.2", r4_2), ("R4.3", r4_3), ("R4.4", r4_4), ("R4.5", r4_5), ("R4.7", r4_7), ("R4.8", r4_8), ("R4.9", r4_9), ("R4.10", r4_10)]
